@@ -1,6 +1,8 @@
 import RtenVerif.Lemmas.NpyRead
 import RtenVerif.Lemmas.NpyTotal
 import RtenVerif.Lemmas.NpyNpz
+import RtenVerif.Lemmas.NpyFortran
+import RtenVerif.Lemmas.NpyUtf8
 
 /-!
 # C34 — Tensor file formats round-trip and reject malformed files
@@ -161,6 +163,94 @@ this header and built a tensor with wrapped strides). Complete evaluation of the
 theorem c34_zero_times_huge_rejected :
     readTyped ⟨⟨false, 105, 4⟩, false, [0, 2 ^ 32, 2 ^ 32]⟩ .i32 [] = .error .countOverflow := by
   rfl
+
+/-! ## Fortran (column-major) order -/
+
+/-- **C34.F1** `fortran_order_to_row_major` is the transpose permutation on the data, for every
+shape (every rank, including 0 and 1 where it is the identity): the element it puts at the
+row-major position of a valid multi-index `idx` is the input's element at the column-major
+position of `idx`. -/
+theorem c34_fortran_pointwise (shape vals idx : List Nat) (hlen : vals.length = prod shape)
+    (hidx : validIdx shape idx) :
+    (fortranToRowMajor shape vals).getD (rowOffset shape idx) 0 =
+      vals.getD (fortranOffset shape idx) 0 := by
+  have hi := rowOffset_lt shape idx hidx
+  rw [fortranToRowMajor_getD shape vals hlen _ hi]
+  unfold fSigma
+  rw [unravel_rowOffset shape idx hidx]
+
+/-- **C34.F2** The index map is a bijection of `[0, ∏ shape)`: `fSigma` (row-major position ↦
+column-major position of the same multi-index) and `fTau` are mutually inverse and stay in range;
+output element `i` is input element `fSigma i`; the length is preserved. -/
+theorem c34_fortran_bijection (shape : List Nat) :
+    (∀ i, i < prod shape → fSigma shape i < prod shape ∧ fTau shape (fSigma shape i) = i) ∧
+    (∀ k, k < prod shape → fTau shape k < prod shape ∧ fSigma shape (fTau shape k) = k) ∧
+    (∀ vals : List Nat, vals.length = prod shape →
+      (fortranToRowMajor shape vals).length = vals.length ∧
+      ∀ i, i < prod shape → (fortranToRowMajor shape vals).getD i 0 = vals.getD (fSigma shape i) 0) :=
+  ⟨fun i hi => ⟨fSigma_lt shape i hi, fTau_fSigma shape i hi⟩,
+   fun k hk => ⟨fTau_lt shape k hk, fSigma_fTau shape k hk⟩,
+   fun vals hl => ⟨fortranToRowMajor_length shape vals,
+     fun i hi => fortranToRowMajor_getD shape vals hl i hi⟩⟩
+
+-- non-vacuity: index (1,0,2) of a 2x3x4 shape; row-major 14 ↔ column-major 13
+example : validIdx [2, 3, 4] [1, 0, 2] ∧ rowOffset [2, 3, 4] [1, 0, 2] = 14 ∧
+    fortranOffset [2, 3, 4] [1, 0, 2] = 13 ∧ fSigma [2, 3, 4] 14 = 13 ∧ fTau [2, 3, 4] 13 = 14 := by
+  refine ⟨by simp [validIdx], by decide, by decide, by decide, by decide⟩
+
+/-- **C34.F3** The header parser accepts the dictionary NumPy writes for either order and
+reports the order flag faithfully (T1a generalised to `fortran_order: True`). -/
+theorem c34_parse_header_dict_any_order (dt : DataType) (fo : Bool) (shape : List Nat)
+    (hall : ∀ d ∈ shape, d < usizeLimit) (tail : List Nat) :
+    parseHeaderRest (dictTextF dt fo shape ++ tail) =
+      .ok (⟨⟨false, dt.kind, dt.itemSize⟩, fo, shape⟩, tail) :=
+  parseHeaderRest_dictTextF dt fo shape hall tail
+
+/-- **C34.F4** Round trip with Fortran-order input: a format-1.0 file whose header says
+`fortran_order: True` and whose data are the elements of `a` serialised in column-major order
+(`toFortranOrder`) reads back as exactly `a` (row-major), for every dtype and shape. -/
+theorem c34_read_fortran_file (a : Array)
+    (hshape : prod (a.shape.map (fun d => max d 1)) < isizeLimit)
+    (hbytes : prod a.shape * a.dtype.itemSize < usizeLimit)
+    (hlen : a.vals.length = prod a.shape)
+    (hvals : ∀ x ∈ a.vals, ValidElem a.dtype x)
+    (hdict : (dictTextF a.dtype true a.shape ++ [10]).length ≤ 65535) :
+    read (npyFileV1 (dictTextF a.dtype true a.shape ++ [10])
+      (((toFortranOrder a.shape a.vals).map (encodeElem a.dtype)).flatten)) = .ok a :=
+  read_fortran_file a hshape hbytes hlen hvals hdict
+
+/-- Converting to column-major order and back is the identity on the data. -/
+theorem c34_fortran_inverse (shape vals : List Nat) (hlen : vals.length = prod shape) :
+    fortranToRowMajor shape (toFortranOrder shape vals) = vals :=
+  fortranToRowMajor_toFortranOrder shape vals hlen
+
+example : toFortranOrder [2, 3] [1, 2, 3, 4, 5, 6] = [1, 4, 2, 5, 3, 6] ∧
+    fortranToRowMajor [2, 3] [1, 4, 2, 5, 3, 6] = [1, 2, 3, 4, 5, 6] := by decide
+
+/-! ## UTF-8 (the header text)
+
+`rten-serialize` delegates validation to `std::str::from_utf8`; `validUtf8` is the model's
+definition of that call (tied to std by the harness). It is exactly well-formedness: -/
+
+/-- **C34.U1** `validUtf8` accepts exactly the well-formed UTF-8 byte sequences: a byte string is
+accepted iff it is the concatenation of the encodings of a list of Unicode scalar values. -/
+theorem c34_utf8_exact (bs : List Nat) :
+    validUtf8 bs = true ↔ ∃ cs : List Nat, (∀ c ∈ cs, isScalar c) ∧ bs = (cs.map encodeScalar).flatten := by
+  constructor
+  · exact scalars_of_validUtf8 bs
+  · rintro ⟨cs, hcs, rfl⟩
+    exact validUtf8_of_scalars cs hcs
+
+example : validUtf8 [0xED, 0xA0, 0x80] = false ∧ validUtf8 [0xC0, 0x80] = false ∧
+    validUtf8 [0xF4, 0x90, 0x80, 0x80] = false ∧ validUtf8 [0xF0, 0x9F, 0x98, 0x80] = true ∧
+    encodeScalar 0x1F600 = [0xF0, 0x9F, 0x98, 0x80] := by decide
+
+/-- **C34.U2** What the crate itself relies on: the text between two `'` of a validated header is
+itself well-formed, so the inner `from_utf8` of `parse_string` ("npy header string is not valid
+UTF-8") is unreachable after `read_header`'s check. -/
+theorem c34_utf8_between_quotes (pre s rest : List Nat)
+    (h : validUtf8 (pre ++ 39 :: (s ++ 39 :: rest)) = true) : validUtf8 s = true :=
+  validUtf8_between_quotes pre s rest h
 
 /-! ## npz entry names -/
 
